@@ -4,6 +4,7 @@ import (
 	"fmt"
 	"math"
 	"reflect"
+	"sort"
 	"strconv"
 	"strings"
 )
@@ -119,6 +120,31 @@ func sprint(sb *strings.Builder, rv reflect.Value, depth int) {
 		sb.WriteByte(']')
 	case reflect.Map:
 		sb.WriteString("map[")
+		if !rv.CanInterface() {
+			// a map in an unexported field: its keys cannot be taken out and ranked, so
+			// they are ordered by their printed form
+			type entry struct {
+				key  string
+				elem reflect.Value
+			}
+			entries := make([]entry, 0, rv.Len())
+			for iter := rv.MapRange(); iter.Next(); {
+				var kb strings.Builder
+				sprint(&kb, iter.Key(), depth+1)
+				entries = append(entries, entry{kb.String(), iter.Value()})
+			}
+			sort.Slice(entries, func(i, j int) bool { return entries[i].key < entries[j].key })
+			for i, e := range entries {
+				if i > 0 {
+					sb.WriteByte(' ')
+				}
+				sb.WriteString(e.key)
+				sb.WriteByte(':')
+				sprint(sb, e.elem, depth+1)
+			}
+			sb.WriteByte(']')
+			return
+		}
 		keys, elems := SortedMapEntries(rv)
 		for i, k := range keys {
 			if i > 0 {
